@@ -28,8 +28,9 @@ Proof. apply predefined_fixed, predefined_nodup. Qed.
 
 Lemma driver_functions hash predef ops :
   map fst (run_trace hash predef ops) = run hash predef ops /\
-  spec_run_tr predef ops = spec_run predef ops.
-Proof. split; [apply run_trace_ok|apply spec_run_tr_ok]. Qed.
+  spec_run_tr predef ops = spec_run predef ops /\
+  fst (start_shape hash predef) = match s_start predef with Some l => size l | None => 0 end.
+Proof. split; [apply run_trace_ok|split; [apply spec_run_tr_ok|apply start_shape_ok]]. Qed.
 
 Lemma exec_defined hash predef ops l :
   sexec predef ops = Some l -> exists s, exec hash predef ops = Ok s /\ cnt s = size l.
